@@ -19,12 +19,16 @@ type c16Case struct {
 	Build string   `json:"build"` // setcoords | flatcap | emptyslices | bounds | coord
 	Ops   []int    `json:"ops"`
 	Names []string `json:"op_names,omitempty"`
+	// Pre (bounds only): operations applied to the original BEFORE it is cloned, so that values
+	// reached by a history (layout promoted by Extend, more dimensions than the layout after Set)
+	// are cloned too
+	Pre []int `json:"pre_ops,omitempty"`
 }
 
 func init() {
 	engine.Register(&engine.Check{
 		ID: "C16", Level: "model_checking",
-		Rule: "for every geometry of the universe U (7 cloneable types x 6 layouts, built by SetCoords, by New*Flat with spare capacity, and with empty-but-non-nil slices) plus larger structures (6..33 polygons / 12..66 parts / 18..99 points), Coord and Bounds: c=g.Clone(); equality of type/layout/SRID/structure/bits; then every mutation history of depth <=2 (quick) / <=3 (thorough) over {overwrite all ordinates incl. spare capacity, overwrite all end offsets incl. spare capacity, Push, Reverse, SetCoords, SetSRID, TransformInPlace} x {original, clone}; after every transition the full state (incl. capacity contents) of the side not operated on must be unchanged. state = (geometry, construction, history)",
+		Rule:   "for every geometry of the universe U (7 cloneable types x 6 layouts, built by SetCoords, by New*Flat with spare capacity, and with empty-but-non-nil slices) plus larger structures (6..33 polygons / 12..66 parts / 18..99 points), Coord and Bounds: c=g.Clone(); equality of type/layout/SRID/structure/bits; then every mutation history of depth <=2 (quick) / <=3 (thorough) over {overwrite all ordinates incl. spare capacity, overwrite all end offsets incl. spare capacity, Push, Reverse, SetCoords, SetSRID, TransformInPlace} x {original, clone}; after every transition the full state (incl. capacity contents) of the side not operated on must be unchanged. state = (geometry, construction, history)",
 		Run:    c16Run,
 		Replay: func(c *engine.Ctx, kind string, raw json.RawMessage) { c16Exec(c, decodeCase[c16Case](raw)) },
 		Assumptions: []string{
@@ -339,18 +343,56 @@ type boundsKey struct {
 
 func bKey(b *geom.Bounds) string {
 	k := boundsKey{Layout: b.Layout()}
-	for i := 0; i < b.Layout().Stride(); i++ {
-		k.Min = append(k.Min, math.Float64bits(b.Min(i)))
-		k.Max = append(k.Max, math.Float64bits(b.Max(i)))
+	// every stored dimension, which can be more than the layout names (Set extends the stored
+	// minima and maxima without touching the layout)
+	for i := 0; i < 12; i++ {
+		var lo, hi float64
+		if p, _ := engine.Guard(func() { lo, hi = b.Min(i), b.Max(i) }); p != nil {
+			break
+		}
+		k.Min = append(k.Min, math.Float64bits(lo))
+		k.Max = append(k.Max, math.Float64bits(hi))
 	}
 	return mustJSON(k)
+}
+
+// c16BoundsOps is the mutation alphabet of Bounds.
+func c16BoundsOps(layout geom.Layout) []func(x *geom.Bounds) {
+	return []func(x *geom.Bounds){
+		func(x *geom.Bounds) { x.Extend(ref.NewPoint(layout, true, ref.CounterFrom(-50)).MustBuild()) },
+		func(x *geom.Bounds) {
+			args := make([]float64, 2*layout.Stride())
+			for i := range args {
+				args[i] = float64(1000 + i)
+			}
+			x.Set(args...)
+		},
+		func(x *geom.Bounds) {
+			n := x.Layout().Stride()
+			lo, hi := make(geom.Coord, n), make(geom.Coord, n)
+			for i := range lo {
+				lo[i], hi[i] = -9, 9
+			}
+			x.SetCoords(lo, hi)
+		},
+		func(x *geom.Bounds) { x.Extend(ref.NewPoint(geom.XYZM, true, ref.CounterFrom(70)).MustBuild()) },
+		// Set with one more dimension than the layout has: the stored minima/maxima grow
+		func(x *geom.Bounds) {
+			n := x.Layout().Stride() + 1
+			args := make([]float64, 2*n)
+			for i := range args {
+				args[i] = float64(-0.5 + float64(3*i))
+			}
+			x.Set(args...)
+		},
+	}
 }
 
 // c16ExecOther handles Bounds and Coord: ops 0..: side = o%2.
 func c16ExecOther(c *engine.Ctx, cs c16Case) {
 	layout := cs.G.Layout
 	fail := func(what, desc string) {
-		c.Violate(fmt.Sprintf("%s/%s/%s", cs.Build, layout, what), fmt.Sprintf("%s; ops %v", desc, cs.Ops), "c16", cs)
+		c.Violate(fmt.Sprintf("%s/%s/%s", cs.Build, layout, what), fmt.Sprintf("%s; pre-ops %v ops %v", desc, cs.Pre, cs.Ops), "c16", cs)
 	}
 	p, _ := engine.Guard(func() {
 		if cs.Build == "coord" {
@@ -380,29 +422,14 @@ func c16ExecOther(c *engine.Ctx, cs c16Case) {
 		}
 		g := cs.G.MustBuild()
 		a := geom.NewBounds(layout).Extend(g)
+		bops := c16BoundsOps(layout)
+		for _, o := range cs.Pre {
+			bops[o](a)
+		}
 		b := a.Clone()
 		if bKey(a) != bKey(b) {
 			fail("unequal", "Bounds.Clone differs: "+bKey(a)+" vs "+bKey(b))
 			return
-		}
-		bops := []func(x *geom.Bounds){
-			func(x *geom.Bounds) { x.Extend(ref.NewPoint(layout, true, ref.CounterFrom(-50)).MustBuild()) },
-			func(x *geom.Bounds) {
-				args := make([]float64, 2*layout.Stride())
-				for i := range args {
-					args[i] = float64(1000 + i)
-				}
-				x.Set(args...)
-			},
-			func(x *geom.Bounds) {
-				n := x.Layout().Stride()
-				lo, hi := make(geom.Coord, n), make(geom.Coord, n)
-				for i := range lo {
-					lo[i], hi[i] = -9, 9
-				}
-				x.SetCoords(lo, hi)
-			},
-			func(x *geom.Bounds) { x.Extend(ref.NewPoint(geom.XYZM, true, ref.CounterFrom(70)).MustBuild()) },
 		}
 		for _, o := range cs.Ops {
 			t, other := a, b
@@ -486,10 +513,16 @@ func c16Run(c *engine.Ctx) {
 		}
 	})
 	// Bounds and Coord
-	bidx := []int{0, 1, 2, 3, 4, 5, 6, 7}
+	bidx := []int{0, 1, 2, 3, 4, 5, 6, 7, 8, 9}
 	for _, l := range []geom.Layout{geom.XY, geom.XYZ, geom.XYM, geom.XYZM, geom.Layout(5)} {
 		for _, h := range ref.Seqs(bidx, depth) {
 			c16Exec(c, c16Case{G: ref.NewLine(ref.LineString, l, 2, ref.Counter()), Build: "bounds", Ops: h})
+		}
+		// values reached by a history are cloned too: every pre-history of <= 2 operations
+		for _, pre := range ref.Seqs([]int{0, 1, 2, 3, 4}, 2)[1:] {
+			for _, h := range ref.Seqs(bidx, 1) {
+				c16Exec(c, c16Case{G: ref.NewLine(ref.LineString, l, 2, ref.Counter()), Build: "bounds", Pre: pre, Ops: h})
+			}
 		}
 		for _, h := range ref.Seqs([]int{0, 1}, depth) {
 			c16Exec(c, c16Case{G: ref.NewPoint(l, true, ref.Counter()), Build: "coord", Ops: h})
